@@ -182,7 +182,16 @@ class CSSMediaRule(cssrule.CSSRuleRules):
                 def atrule(expected, seq, token, tokenizer):
                     # TODO: get complete rule!
                     tokens = self._tokensupto2(tokenizer, token)
-                    atval = self._tokenvalue(token)
+                    # the tokenizer resolves case and escapes of reserved keywords
+                    atval = {
+                        self._prods.CHARSET_SYM: '@charset ',
+                        self._prods.FONT_FACE_SYM: '@font-face',
+                        self._prods.IMPORT_SYM: '@import',
+                        self._prods.MEDIA_SYM: '@media',
+                        self._prods.NAMESPACE_SYM: '@namespace',
+                        self._prods.PAGE_SYM: '@page',
+                        self._prods.VARIABLES_SYM: '@variables',
+                    }.get(self._type(token), self._tokenvalue(token))
                     factories = {
                         '@page': cssutils.css.CSSPageRule,
                         '@media': CSSMediaRule,
